@@ -13,6 +13,8 @@ VARIABLES mem,        \* Bufs -> Contents
           last        \* the last call, for the invariants
 vars == <<mem, memo, last>>
 None == "none"
+(* the array a result lives in has a content like any buffer (a fixed, arbitrary assignment in the model) *)
+ResultContent(r) == CHOOSE c \in Contents : TRUE
 
 Init == mem \in [Bufs -> Contents] /\ memo = << >> /\ last = [f |-> None]
 Key(f, args) == << f, [i \in 1..Len(args) |-> mem[args[i]]] >>
@@ -27,8 +29,15 @@ Call(f, args, res) ==
     /\ last' = [f |-> f, args |-> args, res |-> res]
 (* the caller itself may of course write to its buffers between calls *)
 CallerWrites(b, c) == mem' = [mem EXCEPT ![b] = c] /\ UNCHANGED <<memo, last>>
+(* ... in particular it may keep what a call returned and hand it to the next call (the streaming use of the recursive filters:   *)
+(* q1 = f.update(q0, ...); q2 = f.update(q1, ...)).  The returned array is a caller buffer from then on: the next call reads it  *)
+(* and must leave it alone like any other argument.  ResultContent maps a result to the content id of the array that carries it. *)
+KeepResult(b) == /\ last.f # None
+                 /\ mem' = [mem EXCEPT ![b] = ResultContent(last.res)]
+                 /\ UNCHANGED <<memo, last>>
 Next == \/ \E f \in Funs, n \in 1..2 : \E args \in [1..n -> Bufs] : \E r \in Results : Call(f, args, r)
         \/ \E b \in Bufs, c \in Contents : CallerWrites(b, c)
+        \/ \E b \in Bufs : KeepResult(b)
 Spec == Init /\ [][Next]_vars
 
 (* results are a function of (callable, contents) *)
